@@ -61,6 +61,7 @@ struct search {
 	int n;
 	uint64_t eps, budget, nodes;
 	struct memo memo;
+	uint64_t pred[LIN_MAX_OPS];	/* ops that must be linearised before op i */
 	unsigned char *states;	/* (n+1) * state_size */
 	int order[LIN_MAX_OPS];
 	int inconclusive;
@@ -78,16 +79,11 @@ static int dfs(struct search *s, uint64_t mask, int depth)
 	unsigned char *cur = s->states + (size_t) depth * ss;
 	unsigned char *nxt = s->states + (size_t) (depth + 1) * ss;
 
-	/* earliest return among pending ops */
-	uint64_t min_ret = UINT64_MAX;
-	for (int i = 0; i < s->n; i++)
-		if (!(mask & (1ULL << i)) && s->ops[i].ret < min_ret)
-			min_ret = s->ops[i].ret;
 	for (int i = 0; i < s->n; i++) {
 		if (mask & (1ULL << i))
 			continue;
-		/* op i is minimal iff no pending op returned (by > eps) before i was called */
-		if (min_ret != UINT64_MAX && s->ops[i].call > min_ret + s->eps)
+		/* op i may go next iff everything that must precede it is already linearised */
+		if (s->pred[i] & ~mask)
 			continue;
 		memcpy(nxt, cur, ss);
 		if (!s->m->apply(nxt, &s->ops[i], s->ctx))
@@ -154,6 +150,22 @@ int lin_check(const struct lin_model *m, void *ctx, const struct lin_op *ops, in
 	s.n = n;
 	s.eps = eps;
 	s.budget = budget;
+	/* Precedence: (a) real time between different threads, with the clock margin: j before i iff j
+	 * returned more than eps before i was called; (b) program order inside one thread is certain (its
+	 * operations are sequential and stamped on one clock), so eps must not blur it: j before i iff j was
+	 * called before i.  `thread` must identify one sequential actor. */
+	for (int i = 0; i < n; i++) {
+		s.pred[i] = 0;
+		for (int j = 0; j < n; j++) {
+			if (j == i)
+				continue;
+			if (ops[j].thread == ops[i].thread) {
+				if (ops[j].call < ops[i].call || (ops[j].call == ops[i].call && j < i))
+					s.pred[i] |= 1ULL << j;
+			} else if (ops[j].ret != UINT64_MAX && ops[j].ret + eps < ops[i].call)
+				s.pred[i] |= 1ULL << j;
+		}
+	}
 	s.states = calloc((size_t) n + 1, m->state_size ? m->state_size : 1);
 	m->init(s.states, ctx);
 	int ok = dfs(&s, 0, 0);
